@@ -48,21 +48,22 @@ def run_script(ops, release=False, timeout=1500):
         return {'obs': out, 'exit': r.returncode, 'tail': (r.stdout[-1500:] + r.stderr[-1500:]) if r.returncode != 0 else ''}
 
 
-def run_scenario(name, timeout=1500):
-    """gRPC-level scenario (tests/verif_grpc.rs overlay)"""
+def run_scenario(name, timeout=1500, lib=False):
+    """gRPC-level scenario (tests/verif_grpc.rs overlay) or library-level scenario (verif_replay.rs)"""
+    fname = 'verif_replay.rs' if lib else 'verif_grpc.rs'
     with snapshot.Lock('replay.lock'):
         src = snapshot.snapshot_src()
-        with open(os.path.join(HERE, 'replay', 'verif_grpc.rs')) as f:
+        with open(os.path.join(HERE, 'replay', fname)) as f:
             code = f.read()
-        dst = os.path.join(src, 'tests', 'verif_grpc.rs')
+        dst = os.path.join(src, 'tests', fname)
         with open(dst, 'w') as f:
             f.write(code)
         env = dict(os.environ)
         env['CARGO_TARGET_DIR'] = os.path.join(snapshot.CACHE, 'target-test')
         env['CARGO_NET_OFFLINE'] = 'true'
-        env['VERIF_SCENARIO'] = name
+        env['VERIF_LIB_SCENARIO' if lib else 'VERIF_SCENARIO'] = name
         try:
-            r = subprocess.run(['cargo', 'test', '--offline', '--test', 'verif_grpc', '--', '--nocapture', '--test-threads', '1'],
+            r = subprocess.run(['cargo', 'test', '--offline', '--test', fname[:-3], '--', '--nocapture', '--test-threads', '1'],
                                cwd=src, env=env, capture_output=True, text=True, timeout=timeout)
         finally:
             try:
@@ -80,7 +81,7 @@ def run_scenario(name, timeout=1500):
 def run(request, cfg):
     if 'scenario' in request:
         import judges
-        rr = run_scenario(request['scenario'])
+        rr = run_scenario(request['scenario'], lib=request.get('lib', False))
         verdict, detail = judges.JUDGES[request['judge']](request, rr)
         return {'reproduced': verdict, 'detail': detail, 'request': request, 'obs': rr['obs'][-12:], 'profile': 'dev'}
     return run_ops(request, cfg)
